@@ -75,6 +75,20 @@ class Scenario:
         from vf import simnet
 
         o = self.outcome_for(host)
+        if o == "ok_subdrop":
+            # pair-verify succeeds; the accessory hangs up when the first request of the session arrives (for a pairing with
+            # subscriptions that is the re-subscription the connector itself sends before it finishes)
+            def drop_on_request(c, req):
+                if c.secure:
+                    c.close()
+                    return True
+                return False
+
+            return simnet.ConnScript(verify="ok", responder=drop_on_request)
+        if o == "ok_m4drop":
+            return simnet.ConnScript(verify="ok_close_after_m4")
+        if o == "ok_subreset":
+            return simnet.ConnScript(verify="ok_reset_after_m4")
         if o == "ok" or o.startswith("ok_drop"):
             script = simnet.ConnScript(verify="ok")
             if o.startswith("ok_drop"):
@@ -112,7 +126,11 @@ class Scenario:
         self.t0 = loop.time()
         # every activation remembers the connector task (episode) it ran in
         try:
-            starter = asyncio.ensure_future(w.connection.ensure_connection())
+            if self.desc.get("subscribed"):
+                # the caller subscribes first (the API call records the ids, then waits up to 10 s for the connection)
+                starter = asyncio.ensure_future(w.pairing.subscribe([(1, 9), (1, 10), (2, 9)]))
+            else:
+                starter = asyncio.ensure_future(w.connection.ensure_connection())
             starter.add_done_callback(lambda t: t.cancelled() or t.exception())
             self.wakeups.append(loop.time())
             await asyncio.sleep(0)  # let the initial caller run before any trigger at t=0
@@ -460,6 +478,19 @@ def gen_triggers(ctx, rng):
         yield {"hosts": hosts + (["10.0.0.6"] if "wrong_id" in plan and len(hosts) == 1 else []), "plan": plan, "tail": rng.choice(["refuse", "ok"]), "triggers": triggers, "horizon": 260}
 
 
+def gen_subscribed(ctx):
+    """Pairings that hold subscriptions: the connector re-subscribes before it finishes, so a loss can fall INSIDE it."""
+    drops = ["ok_subdrop", "ok_subreset", "ok_m4drop", "ok_drop:0.5"]
+    for n in (1, 2, 3):
+        for seq in itertools.product(drops + ["refuse", "bad_sig"], repeat=n):
+            if not any(o in drops for o in seq):
+                continue
+            for tail in ("ok", "refuse", "ok_subdrop"):
+                yield {"hosts": ["10.0.0.5"], "plan": list(seq), "tail": tail, "subscribed": True, "horizon": 60 * n + 200}
+    for trig, t in (("wait", 3.0), ("reconnect_soon", 20.0), ("update_same", 90.0), ("close", 30.0)):
+        yield {"hosts": ["10.0.0.5"], "plan": ["ok_subdrop"], "tail": "ok", "subscribed": True, "triggers": [(t, trig, None)], "horizon": 300}
+
+
 def gen_long(ctx):
     # reach the 60 s cap (12+ failures) and stay there: 2 h of virtual time
     for tail_plan in (["refuse"] * 2, ["blackhole"], ["bad_sig", "close_m2"], ["garbage"]):
@@ -470,14 +501,14 @@ def gen_long(ctx):
 async def run_one(ctx, desc) -> None:
     sc = Scenario(ctx, desc)
     nontrivial = bool(desc.get("plan")) or desc.get("per_host") is not None or desc.get("tail") == "refuse"
-    kind = "multi" if desc.get("per_host") else ("trig" if desc.get("triggers") else "seq%d" % len(desc.get("plan", [])))
+    kind = "subscribed" if desc.get("subscribed") else "multi" if desc.get("per_host") else ("trig" if desc.get("triggers") else "seq%d" % len(desc.get("plan", [])))
     ctx.case(repr(desc), nontrivial=nontrivial, sample=desc, kind=kind)
     await sc.run()
 
 
 def all_scenarios(ctx):
     rng = ctx.grng("C10.triggers")
-    return itertools.chain(gen_long(ctx), gen_multi(ctx), gen_triggers(ctx, rng), gen_single(ctx))
+    return itertools.chain(gen_long(ctx), gen_subscribed(ctx), gen_multi(ctx), gen_triggers(ctx, rng), gen_single(ctx))
 
 
 def run(ctx) -> None:
